@@ -29,7 +29,9 @@ def build(scn):
     a = spc.default_assertion(irt=None if scn['sirt'] == 'none' else scn['sirt'], recipient=u[scn['recip']],
                               audiences=[[AUD[x] for x in r] for r in RESTR[scn['aud']]])
     if scn.get('conf2', 'absent') != 'absent':
-        second = dict(a['conf'][0], recipient=u['url'] if scn['conf2'] == 'own' else u['foreign'])
+        second = dict(a['conf'][0], recipient=u['foreign'] if scn['conf2'] == 'foreign' else u['url'])
+        if scn['conf2'] == 'otherIrt':
+            second['irt'] = 'id2'
         a['conf'] = [second, a['conf'][0]] if scn['conf2first'] else [a['conf'][0], second]
     if scn.get('mtype') == 'attribute':
         a['authn'] = None
